@@ -7,7 +7,9 @@ import (
 	"fmt"
 	"math"
 	"math/rand"
+	"os"
 	"strings"
+	"time"
 
 	"github.com/ryogrid/SamehadaDB/lib/storage/access"
 	"github.com/ryogrid/SamehadaDB/lib/storage/index/index_constants"
@@ -192,6 +194,9 @@ type sqlRun struct {
 }
 
 func (s *sqlRun) emit(ev map[string]interface{}) {
+	if r, ok := ev["res"].(string); ok && strings.HasPrefix(r, "panic") && !s.dead {
+		s.dead = true // a panic inside the engine leaves latches / locks behind: the instance is not used further
+	}
 	if s.dead && ev["ev"] != "Reset" {
 		if _, isStmt := ev["res"]; !isStmt || s.deadEmitted {
 			return
@@ -203,7 +208,24 @@ func (s *sqlRun) emit(ev map[string]interface{}) {
 	s.n++
 }
 
+// watch arms a watchdog for one engine call: an engine call that does not return within the limit is
+// recorded as a "hang" outcome of that call and the driver process ends (exit code 3, trace flushed).
+func (s *sqlRun) watch(ev map[string]interface{}) *time.Timer {
+	return time.AfterFunc(40*time.Second, func() {
+		ev["res"] = "hang"
+		ev["ctx"] = s.ctx
+		if _, ok := ev["rows"]; !ok {
+			ev["rows"] = [][]int{}
+		}
+		s.tw.Emit(ev)
+		s.tw.Flush()
+		os.Exit(3)
+	})
+}
+
 func (s *sqlRun) stmt(ev map[string]interface{}, sql string) eng.Result {
+	wd := s.watch(ev)
+	defer wd.Stop()
 	pb := s.e.Pins()
 	var r eng.Result
 	if s.txn != nil {
@@ -424,6 +446,8 @@ func (s *sqlRun) endTxn(commit bool) {
 		name = "Commit"
 	}
 	ev := map[string]interface{}{"ev": name}
+	wd := s.watch(ev)
+	defer wd.Stop()
 	pb := s.e.Pins()
 	res := "ok"
 	func() {
@@ -478,6 +502,8 @@ func (s *sqlRun) idxPoint(t *tableDef, c int, v int) {
 		return
 	}
 	ev := map[string]interface{}{"ev": "IdxPoint", "t": t.name, "c": c, "v": v, "kind": t.kindOf(c), "rows": [][]int{}}
+	wd := s.watch(ev)
+	defer wd.Stop()
 	func() {
 		defer func() {
 			if x := recover(); x != nil {
@@ -503,6 +529,8 @@ func (s *sqlRun) idxRange(t *tableDef, c int, lo, hi int) {
 		return
 	}
 	ev := map[string]interface{}{"ev": "IdxRange", "t": t.name, "c": c, "lo": lo, "hi": hi, "kind": t.kindOf(c), "rows": [][]int{}}
+	wd := s.watch(ev)
+	defer wd.Stop()
 	func() {
 		defer func() {
 			if x := recover(); x != nil {
